@@ -547,10 +547,21 @@ func (w *World) Now() uint64 {
 func (w *World) Deploy(key string, a *Artifact, data any) *Deployed {
 	d, aer := w.TryDeploy(key, a, data, []Signer{w.Committee, w.Alphabet})
 	if d == nil {
+		if !a.Probe && strings.Contains(aer.FaultException, "witness") {
+			// not the simulator's trouble: a repository contract refuses the
+			// deployment although the committee and the Alphabet witness it
+			panic(SetupRefused{fmt.Sprintf("deployment of %s with the committee's and the Alphabet's witnesses refused: %s", key, aer.FaultException)})
+		}
 		harnessf("deploy %s failed: %s", key, aer.FaultException)
 	}
 	return d
 }
+
+// SetupRefused is panicked when a world cannot be built because a contract
+// under test refuses a properly witnessed set-up call. Sim turns it into the
+// C03 rule "the required witnesses suffice" (foreign to every other check:
+// those runs end quietly and are counted).
+type SetupRefused struct{ Msg string }
 
 // stateContractHash predicts the hash a contract gets when `sender` deploys it.
 func stateContractHash(sender util.Uint160, a *Artifact) util.Uint160 {
